@@ -435,19 +435,19 @@ theorem wire_types_match (data rest : Bytes) (x : Nat) (h : decodeVarint data = 
 example : decodeVarint [9, 1, 2, 3, 4, 5, 6, 7, 8] = .ok (9, [1, 2, 3, 4, 5, 6, 7, 8]) := by decide
 
 /-- postDecode's dense id tables, WHEN the translator recognises the id-table code (inline slices or
-one generic helper type with a dense slice and a map): one per entity table, of the length the model
+one generic helper type with a dense slice and a map): at most one per entity table (Mapping, Function, Location), each of the length the model
 (`IdTables.build`) uses, and no index expression on them outside `if id < uint64(len(table))`.
 When the code has another shape (`denseTables = none`) this says nothing; the dynamic correspondence
 and C02's `postDecode_id_tables_total` remain. -/
 theorem dense_tables_match (ts : List Gen.CodecSchema.DenseTable)
     (h : Gen.CodecSchema.denseTables = some ts) :
-    ∃ extra, ts = expectedDenseTables extra ∧
+    ∃ extra, ts.all (denseTableOK extra) = true ∧
       ∀ ids : List Nat, IdTables.build ids =
         IdTables.buildGo { dense := List.replicate (ids.length + extra) none, sparse := [] } 0 ids :=
   Facts.dense_tables_match ts h
 
 /-- the hypothesis is satisfiable (and on the pinned tree it is satisfied: the tables are recognised) -/
-example : ∃ ts, some (expectedDenseTables 1) = some ts := ⟨_, rfl⟩
+example : denseTableOK 1 { elem := "Mapping", table := "Mapping", extra := 1, unguardedIndexes := 0 } = true := by decide
 
 end WireSchema
 
